@@ -83,7 +83,10 @@ View(disk) ==
 -----------------------------------------------------------------------------
 (* abstract state of one run *)
 InitSt(cfg) == [disk |-> Disk0(cfg), created |-> {}, written |-> {}, renamed |-> {}, failed |-> {},
-                delTried |-> {}, delFailed |-> {}, err |-> FALSE]
+                delTried |-> {}, delFailed |-> {}, err |-> FALSE, cerr |-> FALSE]
+\* err  : an operation failed (what a run has to report)
+\* cerr : the value of b.buildError as the code computes it today: `b.buildError = err` after
+\*        SetTombstone forgets earlier failures, and setTombstone swallows a failed rename
 
 Put(disk, f, c) == [g \in DOMAIN disk \cup {f} |-> IF g = f THEN c ELSE disk[g]]
 Del(disk, f)    == [g \in DOMAIN disk \ {f} |-> disk[g]]
@@ -94,7 +97,11 @@ Pending(cfg, st) == (ToDelete0(cfg) \ {Final(t) : t \in st.renamed}) \ st.delTri
 Tombstoning(cfg, st) == cfg.mode = "compound" /\ InstallDone(cfg, st) /\ F("comp", 0) \in Pending(cfg, st)
 \* temp files mergeMeta's deferred os.Remove still finds (their rename failed)
 LeftTmp(cfg, st) == IF cfg.mode = "meta" /\ InstallDone(cfg, st) THEN st.failed \cap DOMAIN st.disk ELSE {}
-Finished(cfg, st) == InstallDone(cfg, st) /\ Pending(cfg, st) = {} /\ LeftTmp(cfg, st) = {}
+\* after a failed rename the run may stop without touching the old index (the repaired
+\* behaviour) or go on deleting / tombstoning it (what Finish does today)
+StoppedEarly(cfg, st) == st.failed # {} /\ st.delTried = {} /\ TombTmp \notin st.created
+Finished(cfg, st) == /\ InstallDone(cfg, st) /\ LeftTmp(cfg, st) = {}
+                     /\ Pending(cfg, st) = {} \/ StoppedEarly(cfg, st)
 
 \* a = [op, f, res]   op in create chmod write rename unlink; res in ok fail
 Enabled(cfg, st, a) ==
@@ -128,13 +135,13 @@ Apply(cfg, st, a) ==
     [] a.op = "rename" /\ a.res = "ok" /\ f # TombTmp ->
          [st EXCEPT !.renamed = @ \cup {f}, !.disk = Put(Del(@, f), Final(f), st.disk[f])]
     [] a.op = "rename" /\ a.res # "ok" /\ f # TombTmp ->
-         [st EXCEPT !.failed = @ \cup {f}, !.err = TRUE]
+         [st EXCEPT !.failed = @ \cup {f}, !.err = TRUE, !.cerr = TRUE]
     \* SetTombstone: `b.buildError = err` with err = nil whatever happened before or inside
     [] a.op = "rename" /\ a.res = "ok" /\ f = TombTmp ->
          [st EXCEPT !.renamed = @ \cup {f}, !.disk = Put(Del(@, f), Final(f), st.disk[f]),
-                    !.delTried = @ \cup {F("comp", 0)}, !.err = FALSE]
+                    !.delTried = @ \cup {F("comp", 0)}, !.cerr = FALSE]
     [] a.op = "rename" /\ a.res # "ok" /\ f = TombTmp ->
-         [st EXCEPT !.failed = @ \cup {f}, !.err = FALSE]
+         [st EXCEPT !.failed = @ \cup {f}, !.err = TRUE, !.cerr = FALSE]
     [] a.op = "unlink" /\ f = TombTmp ->
          [st EXCEPT !.disk = Del(@, f), !.delTried = @ \cup {F("comp", 0)}]
     [] a.op = "unlink" /\ f # TombTmp /\ f \in st.failed ->       \* mergeMeta's deferred remove
@@ -142,9 +149,11 @@ Apply(cfg, st, a) ==
     [] a.op = "unlink" /\ f # TombTmp /\ f \notin st.failed /\ a.res = "ok" ->
          [st EXCEPT !.disk = Del(@, f), !.delTried = @ \cup {f}]
     [] a.op = "unlink" /\ f # TombTmp /\ f \notin st.failed /\ a.res # "ok" ->
-         [st EXCEPT !.delTried = @ \cup {f}, !.delFailed = @ \cup {f}, !.err = TRUE]
+         [st EXCEPT !.delTried = @ \cup {f}, !.delFailed = @ \cup {f}, !.err = TRUE, !.cerr = TRUE]
 
+\* what the run has to report, and what it may report today
 Reported(st) == IF st.err THEN "err" ELSE "ok"
+Reports(st) == {Reported(st), IF st.cerr THEN "err" ELSE "ok"}
 
 -----------------------------------------------------------------------------
 (* the two indexes a searcher may see *)
@@ -182,9 +191,10 @@ StaleSidecar(cfg, st) ==
 Shape(cfg, st, view) ==
   LET n == Cardinality(Artifacts(cfg)) IN
   IF view \in {Old(cfg), New(cfg)} THEN "atomic"
+  \* a failed rename: with a single artifact the only damage is that Finish goes on to delete the
+  \* old index; with several, whichever rename fails leaves a partly installed index
   ELSE IF st.failed \ {TombTmp} # {} THEN
-         IF \E t \in st.failed : Final(t) \in OldFiles(cfg) /\ Final(t) \notin DOMAIN st.disk
-         THEN "rename-failed-old-deleted" ELSE "rename-failed-partial-install"
+         IF n = 1 THEN "rename-failed-old-deleted" ELSE "rename-failed-partial-install"
   ELSE IF st.delFailed # {} THEN "unlink-failed-stale-left"
   ELSE IF TombTmp \in st.failed THEN "tombstone-rename-failed"
   ELSE IF StaleSidecar(cfg, st) THEN "stale-sidecar"
